@@ -15,19 +15,19 @@ variable {σ V S : Type} (I : Interp σ V) (snap : σ → Int → S) (o : Opts) 
 
 /-- **Non-interference.** Forgetting the trace, a traced solve (tracing on or off) is exactly the untraced solve:
     same values, statuses, iteration counts, return value / raised exception. -/
-theorem trace_noninterference (on : Bool) (w : World (σ × List (TraceLabel × S))) :
-    ((tracedSolveT I snap on o n t w).1.map Prod.fst, (tracedSolveT I snap on o n t w).2)
+theorem trace_noninterference (on reset : Bool) (w : World (σ × List (TraceLabel × S))) :
+    ((tracedSolveT I snap on reset o n t w).1.map Prod.fst, (tracedSolveT I snap on reset o n t w).2)
       = solveT I o n t (w.map Prod.fst) := by
   unfold tracedSolveT
-  rw [solveT_sim (traced_sim I snap on) o n t]
+  rw [solveT_sim (traced_sim I snap on reset) o n t]
   cases on <;> rfl
 
 /-- With tracing off no trace is written. -/
-theorem trace_off_empty (w : World (σ × List (TraceLabel × S))) :
-    (tracedSolveT I snap false o n t w).1.user.2 = w.user.2 := by
+theorem trace_off_empty (reset : Bool) (w : World (σ × List (TraceLabel × S))) :
+    (tracedSolveT I snap false reset o n t w).1.user.2 = w.user.2 := by
   unfold tracedSolveT
   simp only [Bool.false_eq_true, if_false]
-  apply solveT_inv (traced I snap false) o t (fun u => u.2 = w.user.2) _ n w rfl
+  apply solveT_inv (traced I snap false reset) o t (fun u => u.2 = w.user.2) _ n w rfl
   constructor
   · intro _ u h; exact h
   · intro u h
@@ -55,23 +55,23 @@ theorem iterSnaps_succ (u0 : σ) (k : Nat) :
 /-- While no pass raises, the traced trajectory is the plain trajectory plus one snapshot per pass. -/
 theorem traj_traced (u0 : σ) (l : List (TraceLabel × S)) (k : Nat)
     (hev : ∀ i, i < k → (I.eval o (traj I o t u0 i) t (i + 1)).2 = false) :
-    traj (traced I snap true) o t (u0, l) k = (traj I o t u0 k, l ++ iterSnaps I snap o t u0 k) := by
+    traj (traced I snap true false) o t (u0, l) k = (traj I o t u0 k, l ++ iterSnaps I snap o t u0 k) := by
   induction k with
   | zero => simp [traj, iterSnaps]
   | succ k ih =>
     have ih' := ih (fun i hi => hev i (by omega))
-    show ((traced I snap true).eval o (traj (traced I snap true) o t (u0, l) k) t (k + 1)).1 = _
+    show ((traced I snap true false).eval o (traj (traced I snap true false) o t (u0, l) k) t (k + 1)).1 = _
     rw [ih']
     have e := eval_eq_of_not_raised I o t u0 k (hev k (Nat.lt_succ_self _))
-    simp only [traced, e, iterSnaps_succ, if_true, List.append_assoc]
+    simp only [traced, recordSnap, Bool.false_eq_true, if_false, e, iterSnaps_succ, if_true, List.append_assoc]
 
 theorem cv_traced (u0 : σ) (l : List (TraceLabel × S)) (v0 : V) (k : Nat)
     (hev : ∀ i, i < k → (I.eval o (traj I o t u0 i) t (i + 1)).2 = false) :
-    cv (traced I snap true) o t (u0, l) v0 k = cv I o t u0 v0 k := by
+    cv (traced I snap true false) o t (u0, l) v0 k = cv I o t u0 v0 k := by
   cases k with
   | zero => rfl
   | succ k =>
-    show (traced I snap true).check (traj (traced I snap true) o t (u0, l) (k + 1)) t = _
+    show (traced I snap true false).check (traj (traced I snap true false) o t (u0, l) (k + 1)) t = _
     rw [traj_traced I snap o t u0 l (k + 1) hev]; rfl
 
 /-- **Shape of the trace of a solved period** (`reset = False`): in order `start, before, 0, 1 … k0, end`;
@@ -87,32 +87,32 @@ theorem trace_shape_solved (l : List (TraceLabel × S)) (u : σ) (st : List Stat
       ¬ Good I o t (I.before o (seed I o t u) t).1 (I.check (seed I o t u) t) i)
     (hgood : Good I o t (I.before o (seed I o t u) t).1 (I.check (seed I o t u) t) k0)
     (ha : (I.after o (traj I o t (I.before o (seed I o t u) t).1 k0) t k0).2 = false) :
-    (tracedSolveT I snap true o n t ⟨(u, l), st, it⟩).1.user =
+    (tracedSolveT I snap true false o n t ⟨(u, l), st, it⟩).1.user =
       ((I.after o (traj I o t (I.before o (seed I o t u) t).1 k0) t k0).1,
        l ++ [(TraceLabel.start, snap u t), (TraceLabel.before, snap (seed I o t u) t),
              (TraceLabel.iter 0, snap (I.before o (seed I o t u) t).1 t)]
          ++ iterSnaps I snap o t (I.before o (seed I o t u) t).1 k0
          ++ [(TraceLabel.«end», snap (I.after o (traj I o t (I.before o (seed I o t u) t).1 k0) t k0).1 t)]) := by
   unfold tracedSolveT
-  simp only [if_true, withUser]
-  have hseed : ∀ l', seed (traced I snap true) o t (u, l') = (seed I o t u, l') := by
+  simp only [if_true, withUser, recordSnap, Bool.false_eq_true, if_false]
+  have hseed : ∀ l', seed (traced I snap true false) o t (u, l') = (seed I o t u, l') := by
     intro l'; unfold seed; split <;> rfl
   have hbe : I.before o (seed I o t u) t = ((I.before o (seed I o t u) t).1, false) := Prod.ext rfl hb
-  have hbef : ∀ l', (traced I snap true).before o (seed I o t u, l') t
+  have hbef : ∀ l', (traced I snap true false).before o (seed I o t u, l') t
       = (((I.before o (seed I o t u) t).1,
           l' ++ [(TraceLabel.before, snap (seed I o t u) t),
                  (TraceLabel.iter 0, snap (I.before o (seed I o t u) t).1 t)]), false) := by
     intro l'
-    simp only [traced]
+    simp only [traced, recordSnap, Bool.false_eq_true, if_false]
     rw [hbe]
-    rfl
-  have hchk : ∀ l', (traced I snap true).check (seed I o t u, l') t = I.check (seed I o t u) t := fun _ => rfl
+    simp [List.append_assoc]
+  have hchk : ∀ l', (traced I snap true false).check (seed I o t u, l') t = I.check (seed I o t u) t := fun _ => rfl
   have hev' : ∀ k, k ≤ k0 → ∀ i, i < k →
       (I.eval o (traj I o t (I.before o (seed I o t u) t).1 i) t (i + 1)).2 = false :=
     fun k hk i hi => hev i (by omega)
   have hae : I.after o (traj I o t (I.before o (seed I o t u) t).1 k0) t k0
       = ((I.after o (traj I o t (I.before o (seed I o t u) t).1 k0) t k0).1, false) := Prod.ext rfl ha
-  have key := C02.solveT_converges (traced I snap true) o n t
+  have key := C02.solveT_converges (traced I snap true false) o n t
     ⟨(u, l ++ [(TraceLabel.start, snap u t)]), st, it⟩ hacc
     (by simp only [hseed, hbef])
     k0 h1 hk
@@ -120,7 +120,7 @@ theorem trace_shape_solved (l : List (TraceLabel × S)) (u : σ) (st : List Stat
       intro i hi
       simp only [hseed, hbef]
       rw [traj_traced I snap o t _ _ i (hev' i (by omega))]
-      simp only [traced]
+      simp only [traced, recordSnap, Bool.false_eq_true, if_false]
       have e := eval_eq_of_not_raised I o t (I.before o (seed I o t u) t).1 i (hev i hi)
       rw [e])
     (by
@@ -144,13 +144,13 @@ theorem trace_shape_solved (l : List (TraceLabel × S)) (u : σ) (st : List Stat
     (by
       simp only [hseed, hbef]
       rw [traj_traced I snap o t _ _ k0 (hev' k0 (Nat.le_refl _))]
-      simp only [traced]
+      simp only [traced, recordSnap, Bool.false_eq_true, if_false]
       rw [hae])
   rw [key]
   rw [stamp_user]
   simp only [withUser, hseed, hbef]
   rw [traj_traced I snap o t _ _ k0 (hev' k0 (Nat.le_refl _))]
-  simp only [traced]
+  simp only [traced, recordSnap, Bool.false_eq_true, if_false]
   rw [hae]
   simp [List.append_assoc]
 
@@ -164,36 +164,36 @@ theorem trace_shape_failed (l : List (TraceLabel × S)) (u : σ) (st : List Stat
       I.allFinite (cv I o t (I.before o (seed I o t u) t).1 (I.check (seed I o t u) t) i) = true)
     (hnone : ∀ i, 0 < i → i ≤ o.maxIter.toNat →
       ¬ Good I o t (I.before o (seed I o t u) t).1 (I.check (seed I o t u) t) i) :
-    (tracedSolveT I snap true o n t ⟨(u, l), st, it⟩).1.user =
+    (tracedSolveT I snap true false o n t ⟨(u, l), st, it⟩).1.user =
       (traj I o t (I.before o (seed I o t u) t).1 o.maxIter.toNat,
        l ++ [(TraceLabel.start, snap u t), (TraceLabel.before, snap (seed I o t u) t),
              (TraceLabel.iter 0, snap (I.before o (seed I o t u) t).1 t)]
          ++ iterSnaps I snap o t (I.before o (seed I o t u) t).1 o.maxIter.toNat) := by
   unfold tracedSolveT
-  simp only [if_true, withUser]
-  have hseed : ∀ l', seed (traced I snap true) o t (u, l') = (seed I o t u, l') := by
+  simp only [if_true, withUser, recordSnap, Bool.false_eq_true, if_false]
+  have hseed : ∀ l', seed (traced I snap true false) o t (u, l') = (seed I o t u, l') := by
     intro l'; unfold seed; split <;> rfl
   have hbe : I.before o (seed I o t u) t = ((I.before o (seed I o t u) t).1, false) := Prod.ext rfl hb
-  have hbef : ∀ l', (traced I snap true).before o (seed I o t u, l') t
+  have hbef : ∀ l', (traced I snap true false).before o (seed I o t u, l') t
       = (((I.before o (seed I o t u) t).1,
           l' ++ [(TraceLabel.before, snap (seed I o t u) t),
                  (TraceLabel.iter 0, snap (I.before o (seed I o t u) t).1 t)]), false) := by
     intro l'
-    simp only [traced]
+    simp only [traced, recordSnap, Bool.false_eq_true, if_false]
     rw [hbe]
-    rfl
-  have hchk : ∀ l', (traced I snap true).check (seed I o t u, l') t = I.check (seed I o t u) t := fun _ => rfl
+    simp [List.append_assoc]
+  have hchk : ∀ l', (traced I snap true false).check (seed I o t u, l') t = I.check (seed I o t u) t := fun _ => rfl
   have hev' : ∀ k, k ≤ o.maxIter.toNat → ∀ i, i < k →
       (I.eval o (traj I o t (I.before o (seed I o t u) t).1 i) t (i + 1)).2 = false :=
     fun k hk i hi => hev i (by omega)
-  have key := C02.solveT_fails (traced I snap true) o n t
+  have key := C02.solveT_fails (traced I snap true false) o n t
     ⟨(u, l ++ [(TraceLabel.start, snap u t)]), st, it⟩ hacc
     (by simp only [hseed, hbef])
     (by
       intro i hi
       simp only [hseed, hbef]
       rw [traj_traced I snap o t _ _ i (hev' i (by omega))]
-      simp only [traced]
+      simp only [traced, recordSnap, Bool.false_eq_true, if_false]
       have e := eval_eq_of_not_raised I o t (I.before o (seed I o t u) t).1 i (hev i hi)
       rw [e])
     (by
@@ -217,12 +217,12 @@ theorem trace_shape_failed (l : List (TraceLabel × S)) (u : σ) (st : List Stat
 /-! ### Non-vacuity -/
 
 /-- Traced run of the C02 example model: trace = start, before, 0, 1, 2, 3, 4, end with values 0,0,0,1,2,3,3,3. -/
-example : (tracedSolveT C02.exI (fun u _ => u) true { maxIter := 10 } 5 2
+example : (tracedSolveT C02.exI (fun u _ => u) true false { maxIter := 10 } 5 2
       ⟨(0, []), List.replicate 5 .unsolved, List.replicate 5 (-1)⟩).1.user
     = (3, [(.start, 0), (.before, 0), (.iter 0, 0), (.iter 1, 1), (.iter 2, 2), (.iter 3, 3), (.iter 4, 3),
            (.«end», 3)]) := by decide
 
-example : (tracedSolveT C02.exI (fun u _ => u) false { maxIter := 10 } 5 2
+example : (tracedSolveT C02.exI (fun u _ => u) false false { maxIter := 10 } 5 2
       ⟨(0, []), List.replicate 5 .unsolved, List.replicate 5 (-1)⟩).1.user = (3, []) := by decide
 
 end Fsic.C17
